@@ -15,6 +15,7 @@ import (
 	"fmt"
 	"net"
 	"reflect"
+	"strings"
 	"sync/atomic"
 	"time"
 	"unsafe"
@@ -54,6 +55,7 @@ type c18SrvDriver struct {
 	peerMid  int32
 	per      int64
 	slack    int64
+	sendTok  int
 }
 
 func c18NewSrvDriver(h c18Hist) (c18Driver, error) {
@@ -108,6 +110,26 @@ func c18NewSrvDriver(h c18Hist) (c18Driver, error) {
 	d.per = c18Duration(real)
 	d.clk = c18Clock{0, real.LastActivity()}
 	return d, nil
+}
+
+func c18SrvSend(cc *udpClient.Conn, sub int, tok *int) error {
+	*tok++
+	m := cc.AcquireMessage(cc.Context())
+	defer cc.ReleaseMessage(m)
+	m.SetType(message.NonConfirmable)
+	m.SetToken(message.Token{0x53, byte(*tok), byte(*tok >> 8)})
+	if sub%2 == 0 {
+		m.SetCode(codes.GET)
+		_ = m.SetPath("/s")
+	} else {
+		m.SetCode(codes.Content)
+		m.SetObserve(uint32(*tok))
+		m.SetBody(strings.NewReader("notification"))
+	}
+	if err := cc.WriteMessage(m); err != nil {
+		return fmt.Errorf("send: %w", err)
+	}
+	return nil
 }
 
 func (d *c18SrvDriver) period() int64 { return d.per }
@@ -166,6 +188,10 @@ func (d *c18SrvDriver) apply(e c18Ev) ([]c18Obs, error) {
 	switch e.kind {
 	case 'T':
 		d.tick(d.clk.at(e.t))
+	case 'S': // the server sends a NON message to the peer (a notification, a request of its own); nobody answers
+		if err := c18SrvSend(d.cc, e.sub, &d.sendTok); err != nil {
+			return nil, err
+		}
 	case 'D':
 		dist := e.t - d.clk.v // idle distance the datagram path has to see
 		margin := d.per - d.slack - dist
